@@ -54,7 +54,7 @@ def lifetime_oracle(out, alive_marks):
             return 'step %d: the observers disagree with each other (%s)' % (step, dump)
         if b != 0:
             return 'step %d: an element was constructed over a live one, or destroyed / assigned while dead (%s)' % (step, t)
-        alive = sum(1 for o in dump.split(';') if o[:1] in alive_marks)
+        alive = sum(1 for o in dump.split(';') if (alive_marks(o) if callable(alive_marks) else o[:1] in alive_marks))
         if c - d != alive:
             return 'step %d: %d constructed - %d destroyed but %d alive elements are visible (%s)' % (step, c, d, alive, t)
         step += 1
@@ -118,7 +118,7 @@ def post_state_oracle(kind):
     return oracle
 
 
-def run_histories(ctx, pool, cases, alive_marks, stream, what, extra_oracle=None):
+def run_histories(ctx, pool, cases, alive_marks, stream, what, extra_oracle=None, project=None):
     lines = ['%s %s' % (k, ','.join(s)) for k, s in cases]
     ho = run_objs(pool, lines)
     mo = run_driver(pool, lines)
@@ -133,7 +133,7 @@ def run_histories(ctx, pool, cases, alive_marks, stream, what, extra_oracle=None
             v = extra_oracle(line, o)
         if v:
             ctx.violate('lifetime:' + line.split(' ')[0], '%s: %s; history: %s' % (stream, v, line[:300]), {'case': line, 'output': o, 'model': m})
-        elif not m.startswith('DRIVER') and o != m:
+        elif not m.startswith('DRIVER') and (o != m if project is None else project(o) != project(m)):
             broken.append({'case': line, 'hraw': o, 'mraw': m})
     report_broken(ctx, broken, stream, what)
     return len(lines)
@@ -270,7 +270,32 @@ def check_C12(ctx):
     cases = histories(ctx, alpha, setups, rnd, ['var'], 2 if ctx.quick else 3, 3000 if ctx.quick else 80000, 16 if ctx.quick else 40)
     n = run_histories(ctx, pool, cases, 'A', 'variant-histories',
                       'Variant<Tr<0>,Tr<1>,Tr<2>> index, active element, Visit/get/is observers and element lifetime after every step = model v_step')
-    return finish_with_proofs(ctx, {'variant_histories': n})
+    # a Variant whose alternatives 0 and 2 are trivially destructible (float, int) and 1 and 3 track their lifetime:
+    # only the tracked ones are counted; the model is compared on which alternative is active
+    malpha = var_alphabet([0, 1], [0, 1, 2, 3], [7], [-1, 1, 4], [0]) + ['s0:1:8:1', 's1:3:8:1', 'V1:3:8:1', 'a0:2', 'm0:2', 'm2:0']
+    mrnd = var_alphabet([0, 1, 2], [0, 1, 2, 3], [1, 2, 3], [-2, -1, 0, 1, 2, 3, 4, 5], [0, 0, 1])
+    msetups = [[], ['N0'], ['V0:1:5:0'], ['V0:3:5:0', 'N1'], ['V0:1:5:0', 'V1:2:6:0'], ['V0:0:5:0', 'V1:3:6:0'], ['V0:1:5:0', 'V1:3:6:0', 'V2:2:4:0']]
+    def nothrow_trivial(seq):
+        out = []
+        for op in seq:
+            a = op[1:].split(':')
+            if op[0] in 'Vs' and len(a) > 3 and a[1] in ('0', '2'):
+                a[3] = '0'
+                op = op[0] + ':'.join(a)
+            out.append(op)
+        return out
+    mcases = [(k, nothrow_trivial(sq)) for k, sq in histories(ctx, malpha, msetups, mrnd, ['varm'], 2 if ctx.quick else 3, 3000 if ctx.quick else 60000, 16 if ctx.quick else 40)]
+    def active_only(out):
+        toks = []
+        for t in out.split(' '):
+            if '|' in t:
+                toks.append(';'.join(o.split(':')[0] for o in t.split('|', 1)[1].split(';')))
+            elif t == 'skip':
+                toks.append(t)
+        return toks
+    n2 = run_histories(ctx, pool, mcases, lambda o: o.startswith(('A1:', 'A3:')), 'variant-mixed-histories',
+                       'Variant<float,Tr<1>,int,Tr<3>>: active alternative after every step = model v_step', project=active_only)
+    return finish_with_proofs(ctx, {'variant_histories': n, 'variant_mixed_trivial_histories': n2})
 
 
 # ------------------------------------------------------------------ C15 -----
@@ -656,6 +681,12 @@ def check_C14(ctx):
         body = hx[{'83': 18, '82': 10, '81': 6, '80': 4}.get(hx[:2], 2):]
         for v in [0, 1, 6, 7, 8, 127, 128, 255, 65535, 2 ** 32 - 16, 2 ** 32 - 1, 2 ** 32, 2 ** 64 - 16, 2 ** 64 - 1, rng.getrandbits(64), rng.getrandbits(32)]:
             lines2.append((s, pre + 'R %s %s%s' % (ret, sel_enc(v, f['sel32']), body), 'selector'))
+        if f['sel32'] and hx[:2] in ('82', '81', '80') or (f['sel32'] and int(hx[:2], 16) < 0x80):
+            # a 32-bit interface: the bound selector itself, written in the U64 class with and without high bits set
+            own = int.from_bytes(bytes.fromhex(hx[2:{'82': 10, '81': 6, '80': 4}.get(hx[:2], 2)]), 'little') if hx[:2] in ('82', '81', '80') else int(hx[:2], 16)
+            for hi in (0, 1, 0x7fffffff, 0xffffffff):
+                wide = '83' + (own | (hi << 32)).to_bytes(8, 'little').hex()
+                lines2.append((s, pre + 'R %s %s%s' % (ret, wide, body), 'selector-too-wide'))
     res2 = []
     for b in ('rpc', 'rpcp'):
         cs = [c for c in lines2 if binary(sets[c[0]][1]) == b]
@@ -671,7 +702,10 @@ def check_C14(ctx):
             continue
         a = parse_actions(o)[-1]
         nlog = 0 if a['log'] == '-' else len(a['log'].split('+'))
-        if kind == 'trunc' and (a['disp'] == '0' or a['log'] != '-' or a['rep'] != '-'):
+        if kind == 'selector-too-wide' and (a['disp'] == '0' or a['log'] != '-' or a['rep'] != '-'):
+            ctx.violate('dispatch', 'a selector encoded in a class wider than the interface\'s 32-bit selector type must be rejected without running a handler: status %s, log=%s, rep=%s; %s' %
+                        (a['disp'], a['log'][:100], a['rep'][:40], line[:300]), {'case': line, 'output': o, 'model': m})
+        elif kind == 'trunc' and (a['disp'] == '0' or a['log'] != '-' or a['rep'] != '-'):
             ctx.violate('dispatch', 'a truncated request must be rejected with the decode error, run no handler and send nothing back: status %s, log=%s, rep=%s; %s' % (a['disp'], a['log'][:100], a['rep'][:40], line[:300]),
                         {'case': line, 'output': o, 'model': m})
         elif a['disp'] != '0' and (a['log'] != '-' or a['rep'] != '-'):
@@ -734,7 +768,7 @@ def check_C19(ctx):
         ops = []
         for _ in range(n):
             k = rng.random()
-            s = rng.randrange(6)
+            s = rng.randrange(8)
             if k < 0.12: ops.append('N%d:%d' % (s, rng.randrange(1, 1000)))
             elif k < 0.20: ops.append('I%d:%d' % (s, rng.randrange(1, 1000)))
             elif k < 0.26: ops.append('J%d:%d' % (s, rng.randrange(1, 1000)))
